@@ -66,7 +66,7 @@ fn thing_props() -> Vec<PropDef> {
 }
 fn thing_edges() -> Vec<EdgeDef> {
     vec![
-        e("next", "Thing", "[Thing!]", vec![pd("lo", "Int", None), pd("hi", "Int", Some("1000"))], false),
+        e("next", "Thing", "[Thing!]", vec![pd("lo", "Int", None), pd("hi", "Int", Some("6"))], false),
         e("link", "Thing", "[Thing!]!", vec![], false),
         e("parent", "Thing", "Thing", vec![], true),
     ]
